@@ -33,19 +33,45 @@ print('tests:', out_t.strip())
 print('demo with change rc=', rc_with, '| without rc=', rc_without)
 ok = 'passed' in out_t and 'failed' not in out_t and rc_with != 0 and rc_without == 0
 results = {}
-assert subprocess.run('git -C /repo diff --quiet', shell=True).returncode == 0, '/repo dirty'
-try:
-    rc, out = sh(f'git -C /repo apply {wt}/seed.patch')
+
+
+def collect(c, rc, out):
+    lines = [l for l in out.splitlines() if l.startswith(('VIOLATION', 'KNOWN', '  ')) or 'quick:' in l]
+    results[c] = dict(exit=rc, output=lines[:8])
+    print(f'== check {c}: exit {rc}')
+    for l in lines[:6]:
+        print('   ', l[:260])
+
+
+if os.environ.get('SCRATCH'):
+    # scratch route: a worktree of /repo with the patch and a copy of /verif; /repo and /verif/evidence untouched
+    sr, sv = f'/tmp/sr_{name}', f'/tmp/sv_{name}'
+    sh(f'git -C /repo worktree remove --force {sr}; rm -rf {sr} {sv}')
+    rc, out = sh(f'git -C /repo worktree add --detach {sr} HEAD && git -C {sr} apply {wt}/seed.patch')
     assert rc == 0, out
-    for c in checks:
-        rc, out = sh(f'./check {c} quick', cwd='/verif')
-        lines = [l for l in out.splitlines() if l.startswith(('VIOLATION', 'KNOWN', '  ')) or 'quick:' in l]
-        results[c] = dict(exit=rc, output=lines[:8])
-        print(f'== check {c}: exit {rc}')
-        for l in lines[:6]:
-            print('   ', l[:260])
-finally:
-    sh('git -C /repo checkout -- .')
+    sh(f'mkdir -p {sv} && rsync -a --exclude .git --exclude evidence /verif/ {sv}/ && mkdir -p {sv}/evidence')
+    try:
+        for c in checks:
+            rc, out = sh(f'./check {c} quick', cwd=sv, env=dict(os.environ, VERIF_ROOT=sv, VERIF_REPO=sr))
+            collect(c, rc, out.replace(sv, '/verif'))
+    finally:
+        sh(f'git -C /repo worktree remove --force {sr}; rm -rf {sr} {sv}')
+    how_run = f'scratch worktree of /repo with the patch (VERIF_REPO) + copy of /verif (VERIF_ROOT); ./check <id> quick'
+else:
+    assert subprocess.run('git -C /repo diff --quiet', shell=True).returncode == 0, '/repo dirty'
+    shutil.rmtree('/tmp/evidence_backup', ignore_errors=True)
+    shutil.copytree('/verif/evidence', '/tmp/evidence_backup')
+    try:
+        rc, out = sh(f'git -C /repo apply {wt}/seed.patch')
+        assert rc == 0, out
+        for c in checks:
+            rc, out = sh(f'./check {c} quick', cwd='/verif')
+            collect(c, rc, out)
+    finally:
+        sh('git -C /repo checkout -- .')
+        shutil.rmtree('/verif/evidence', ignore_errors=True)
+        shutil.move('/tmp/evidence_backup', '/verif/evidence')
+    how_run = 'git -C /repo apply patch; ./check <id> quick; git -C /repo checkout -- .'
 d = f'/verif/seeded/{name}'
 os.makedirs(d, exist_ok=True)
 shutil.copy(f'{wt}/seed.patch', f'{d}/patch.diff')
@@ -55,7 +81,7 @@ json.dump(dict(property=pid, name=name, confirmed=ok, tests_with_change=out_t.st
                demo_with_change=dict(exit=rc_with, tail=out_with.strip().splitlines()[-6:]),
                demo_without_change=dict(exit=rc_without, tail=out_without.strip().splitlines()[-3:]),
                needs_to_manifest=notes, what_was_run=[f'cd {wt} && PYTHONPATH={wt} pytest (51 tests)', 'demo.py with / without',
-                                                      'git -C /repo apply patch; ./check <id> quick; git -C /repo checkout -- .'],
+                                                      how_run],
                checks=results, detected={c: r['exit'] == 1 for c, r in results.items()}),
           open(f'{d}/meta.json', 'w'), indent=1)
 print('confirmed:', ok, 'detected:', {c: r['exit'] == 1 for c, r in results.items()})
